@@ -43,6 +43,7 @@ M = [
  ('an authenticator removes only the cookie it created', 'C06', "Challenge(1), 30 s pass, Challenge(2) reuses cookie id 1, CANCEL (or any answer) on connection 1 removes connection 2's fresh cookie: the conforming client of connection 2 is REJECTED"),
  ('property values are stored per (interface, name)', 'C17', "properties 'name' on org.v.I1 and 'ame' on org.v.I1n of one object (interface + name concatenate to the same string) share one stored value: assigning one changes what Get returns for the other"),
  ('message off the wire keeps its body bytes', 'C14', "a call with body 'siv' holding Variant('u', 4000000000), or a return with a{sv} holding a BYTE and an OBJECT_PATH, forwarded by the bus: the variants arrive retyped (INT64 / INT32 / STRING) - not the message that was sent"),
+ ('losing the connection fails every outstanding call even when an errback issues new ones', 'C09', "three calls outstanding, the errback of the first re-issues a call on the same connection, the connection is lost: RuntimeError (dictionary changed size during iteration) out of connectionLost, the other two calls never fail, proxy disconnect callbacks never run"),
  ('RequestName queues a requester', 'C13', 'request without the replace flag refused instead of queued; a waiting client requesting again queued twice'),
  ('waiting for a name leaves the queue', 'C13', 'ReleaseName by a queued client answered NOT_OWNER and left it queued; a queued client that disconnected later became a dead owner'),
 ]
